@@ -372,6 +372,8 @@ class System:
                         pass
                 for nm in NEUTRAL:
                     acts.append(["neutral", nm, i])
+                if is_tracked(x):
+                    acts.append(["flag", "freeze" if x.flags.writeable else "unfreeze", i])
             elif kind == "flat":
                 acts.append(["write", "flatiter_setitem", i])
             elif kind == "memview":
@@ -398,6 +400,9 @@ class System:
                 ctx.handles[a[1]].__hash__()
             elif a[0] == "neutral":
                 NEUTRAL[a[1]](ctx.handles[a[2]])
+            elif a[0] == "flag":
+                # the library's own way of freezing an array: the `mutable` property
+                ctx.handles[a[2]].mutable = a[1] == "unfreeze"
             elif a[0] == "write":
                 x = ctx.handles[a[2]]
                 if a[1] == "flatiter_setitem":
@@ -507,6 +512,17 @@ def _mk_container(name, arrays=None):
     F = np.array([[0, 2, 1], [0, 1, 3], [1, 2, 3], [0, 3, 2]], dtype=np.int64)
     C = np.array([[250, 200, 150, 255], [90, 60, 30, 255], [1, 2, 3, 255], [9, 8, 7, 255]], dtype=np.uint8)
     arrays = arrays or {}
+    if name.endswith("/1row"):
+        # every member array has exactly one row (single face, single point, single colour)
+        name = name[: -len("/1row")]
+        if name in ("DataStore", "Trimesh", "Scene"):
+            V, F, C = V[:3], F[:1], C[:1]
+        elif name == "Trimesh+colors":
+            V, F, C = V[:3], F[:1], C[:1]
+        elif name == "ColorVisuals":
+            V, F, C = V[:3], F[:1], C[:3]
+        else:
+            V, C = V[:1], C[:1]
     V = arrays.get("vertices", V).copy()
     F = arrays.get("faces", F).copy()
     C = arrays.get("colors", C).copy()
@@ -522,7 +538,8 @@ def _mk_container(name, arrays=None):
         return m, {"vertices": lambda o: o.vertices, "faces": lambda o: o.faces}
     if name == "Trimesh+colors":
         m = trimesh.Trimesh(vertices=V, faces=F, face_colors=C, process=False)
-        return m, {"vertices": lambda o: o.vertices, "colors": lambda o: o.visual.face_colors}
+        # the mesh hash is the hash of its vertex and face arrays: colours are hashed by the visual
+        return m, {"vertices": lambda o: o.vertices, "faces": lambda o: o.faces}
     if name == "ColorVisuals":
         m = trimesh.Trimesh(vertices=V, faces=F, vertex_colors=C, process=False)
         return m.visual, {"colors": lambda o: o.vertex_colors}
@@ -549,7 +566,8 @@ def _mk_container(name, arrays=None):
     raise KeyError(name)
 
 
-CONTAINERS = ["DataStore", "Trimesh", "Trimesh+colors", "ColorVisuals", "PointCloud", "Path3D", "Path2D", "Scene"]
+CONTAINERS = ["DataStore", "Trimesh", "Trimesh+colors", "ColorVisuals", "PointCloud", "Path3D", "Path2D", "Scene",
+              "DataStore/1row", "Trimesh/1row", "Trimesh+colors/1row", "PointCloud/1row", "Scene/1row"]
 CONT_VIEWS = [None, "idx0", "T", "reshape", "view", "col"]
 
 
@@ -590,6 +608,10 @@ def _container_case(case):
         fresh = Path2D(entities=[Line([0, 1, 2, 3, 0])], vertices=after.copy(), process=False)
     want = _chash(fresh)
     detail = {"changed_bytes": changed, "exception": exc, "got": got, "want": want}
+    if changed and prehash and got == h0 and got == want:
+        # the fresh container agrees, but the hash did not move although the bytes did:
+        # the member does not take part in the container hash at all
+        return f"container {name}.{member}: hash unchanged although the bytes changed", detail, changed
     if got != want:
         if viewkind is None:
             via = "direct"
